@@ -431,7 +431,11 @@ def string_escape(ctx):
         reports.error,
         "invalid-escape",
         (ctx_start, ctx, "A letter is expected after a backslash '\\' in a string")
-    )).lower()
+    ))
+    if char is None:
+        # The backslash is the last character of the file
+        return ""
+    char = char.lower()
 
     if char == "n":
         return "\n"
